@@ -974,7 +974,8 @@ impl Bgi {
         if !self.viewport.contains(x, y) {
             return;
         }
-        let mut fill_lines = vec![Vec::new(); self.viewport.get_height() as usize];
+        // one list per screen row: the spans are indexed by their absolute row, also in a moved viewport
+        let mut fill_lines = vec![Vec::new(); self.window.height as usize];
         let mut point_stack = Vec::new();
 
         if self.screen[(y * self.window.width + x) as usize] != border {
